@@ -3,7 +3,7 @@
 # Verifies a seeded change in a scratch worktree (outside /repo and /verif) and runs the given checks against it.
 set -u
 export GOFLAGS=-mod=mod GOPROXY=off GOSUMDB=off GOTOOLCHAIN=local
-VERIF=$(cd "$VERIF" && pwd)
+VERIF=$(cd "$(dirname "$0")/.." && pwd)
 M=$(realpath "$1"); PKG=$2; shift 2
 WT=$(mktemp -d /tmp/mv.XXXXXX); rmdir "$WT"
 git -C /repo worktree add -q --detach "$WT" HEAD || exit 2
